@@ -1,17 +1,31 @@
 #!/bin/bash
 # tools/build.sh [variant ...]   variants: plain race intpool (default: all)
-# Builds .bin/vcheck-<variant> from /verif sources and /repo's current working tree
-# (module replace => /repo), hooks on (-tags verif). A no-op when nothing changed.
+# Builds $VERIF_BIN/vcheck-<variant> (default .bin/) from /verif sources and the
+# repository's current working tree (module replace => /repo), hooks on (-tags verif).
+# A no-op when nothing changed (Go build cache).
+# VERIF_REPO=<dir> builds against another checkout (scratch worktrees with seeded
+# changes) through a temporary -modfile; registered checks never set it.
 set -e
 cd "$(dirname "$0")/.."
 . tools/goenv.sh
-mkdir -p .bin
+BIN="${VERIF_BIN:-.bin}"
+mkdir -p "$BIN"
+MODFLAG=""
+if [ -n "$VERIF_REPO" ] && [ "$VERIF_REPO" != /repo ]; then
+  mkdir -p "$BIN/mod"
+  sed "s#=> /repo#=> $VERIF_REPO#" go.mod > "$BIN/mod/go.mod"
+  cp go.sum "$BIN/mod/go.sum"
+  MODFLAG="-modfile=$BIN/mod/go.mod"
+fi
+TAGS="verif"
+# VERIF_ONLY=c10 links only that property package (isolates parallel development)
+[ -n "$VERIF_ONLY" ] && TAGS="verif only only_$VERIF_ONLY"
 [ $# -eq 0 ] && set -- plain race intpool
 for v in "$@"; do
   case "$v" in
-    plain)   $VGO build -tags verif -o .bin/vcheck-plain ./cmd/vcheck ;;
-    race)    $VGO build -race -tags verif -o .bin/vcheck-race ./cmd/vcheck ;;
-    intpool) $VGO build -tags "verif VERIFY_EVM_INTEGER_POOL" -o .bin/vcheck-intpool ./cmd/vcheck ;;
+    plain)   $VGO build $MODFLAG -tags "$TAGS" -o "$BIN/vcheck-plain" ./cmd/vcheck ;;
+    race)    $VGO build $MODFLAG -race -tags "$TAGS" -o "$BIN/vcheck-race" ./cmd/vcheck ;;
+    intpool) $VGO build $MODFLAG -tags "$TAGS VERIFY_EVM_INTEGER_POOL" -o "$BIN/vcheck-intpool" ./cmd/vcheck ;;
     all)     "$0" plain race intpool ;;
     *) echo "unknown variant $v" >&2; exit 2 ;;
   esac
